@@ -48,6 +48,7 @@ type c04World struct {
 	selfSchedulesInRepeating           int
 	zeroDelayAfterOwnCancel            int
 	fractionalDelays                   int
+	cancelsOfOwnClosedTimerInCallback  int
 	createdInOwnCallbackAfterClose     int
 	zeroDelayNotInline                 int
 	inRepeatingCallbackOf              map[*c04Timer]int
@@ -152,7 +153,20 @@ func (x *c04World) behave(self *c04Timer, what string) {
 			// callback (the series' re-arm) must not land on the new one, and the closed timer stays closed
 			x.c.Logf("      handler(%s): closes its own repeating timer and creates a new one before returning", what)
 			x.close(self)
+			if r.Bool() && !x.c.Failed() {
+				// ... and goes on using the closed timer from the same callback: Cancel is harmless, no schedule is accepted
+				x.c.Logf("      handler(%s): ... then cancels the closed timer", what)
+				x.cancel(self)
+				x.cancelsOfOwnClosedTimerInCallback++
+			}
 			if nt := x.newTimer(); nt != nil && !x.c.Failed() {
+				if r.Bool() {
+					x.c.Logf("      handler(%s): ... and tries to schedule the closed timer again", what)
+					x.schedule(self, time.Duration(r.Range(-1, 20))*time.Millisecond, r.Bool())
+				}
+				if x.c.Failed() {
+					return
+				}
 				if r.Bool() {
 					x.schedule(nt, time.Duration(r.Range(1, 20))*time.Millisecond, r.Bool())
 				}
@@ -540,6 +554,7 @@ func runC04(c *vf.Case) {
 	c.Count("zero_delay_schedules_after_cancelling_the_own_repeating_series", x.zeroDelayAfterOwnCancel)
 	c.Count("schedules_with_a_delay_that_is_not_a_whole_number_of_milliseconds", x.fractionalDelays)
 	c.Count("timers_created_inside_a_callback_right_after_the_timer_closed_itself", x.createdInOwnCallbackAfterClose)
+	c.Count("cancels_of_the_own_closed_timer_inside_its_repeating_callback", x.cancelsOfOwnClosedTimerInCallback)
 	c.Count("zero_delay_callbacks_still_due_when_the_call_returned", x.zeroDelayNotInline)
 	if x.minSlack != 0 {
 		c.Min("min_slack_ns", int64(x.minSlack))
